@@ -6,6 +6,7 @@ from lib.ast import walk, recv_path
 from lib.flat import show
 from lib.mir import AnchorMissing
 from . import tokrules as tr
+from . import nf_common
 
 MANIFEST = {
     "text": "Every read of exact_errors / profile / drop_doctype / discard_bom in both tokenizers and both tree builders is classified from the code: message-only (selects the wording or presence of a parse error), timing-only, or path-select; path-select sites are proved equivalent by table rules (fast-path sets complete, SIMD masks == scalar set, all fast/slow/SIMD variants of a state tabulate identically). discard_bom is read only in feed() and cleared after the first character; drop_doctype guards exactly the append_doctype call.",
@@ -244,6 +245,7 @@ def run(ctx):
     ctx.guard("R08.1", "sets/html", lambda: tr.fastpath_sets(ctx, "R08.1", "html", 10))
     ctx.guard("R08.1", "sets/xml", lambda: tr.fastpath_sets(ctx, "R08.1", "xml", 4))
     ctx.guard("R08.2", "simd", lambda: r08_2(ctx))
+    ctx.guard("R08.2", "nf-simd", lambda: nf_common.nf_rule(ctx, "R08.2", "html_tokenizer_simd", floor=3))
     for w in ("html", "xml"):
         ctx.guard("R08.3", "options/" + w, lambda w=w: tr.option_invariance(ctx, "R08.3", w, exempt={"pop_except_from": "selects the character-by-character path; equivalence is R08.1"}))
         ctx.guard("R08.3", "bom/" + w, lambda w=w: tr.bom_rule(ctx, "R08.3", w))
